@@ -451,7 +451,9 @@ def _gen(seed, tier, opts):
             for inp in model.inputs:
                 pt[inp.name] = inp.draw(nprng, rng) if rng.random() < 0.5 else inp.nom.copy()
             points.append({k: np.asarray(v).tolist() for k, v in pt.items()})
-        ops = [{"op": "build"}, {"op": "set", "k": 0}, {"op": "run"}]
+        # setup() and final_setup() are separate steps so that the scheduler can put another tenant's set-up
+        # between them (class-level state written in setup() and read later manifests exactly there)
+        ops = [{"op": "build"}, {"op": "final_setup"}, {"op": "set", "k": 0}, {"op": "run"}]
         for _ in range(rng.randint(1, 5)):
             r = rng.random()
             if r < 0.2:
@@ -472,6 +474,9 @@ def _gen(seed, tier, opts):
                 ops.append({"op": "check_partials", "includes": inc})
         if rng.random() < 0.5:
             ops.append({"op": "drop"})
+            if rng.random() < 0.4:
+                # build the same tenant again from new objects (ids of collected objects may be reused) and repeat
+                ops += [{"op": "rebuild"}, {"op": "final_setup"}, {"op": "set", "k": 0}, {"op": "run"}, {"op": "totals"}, {"op": "drop"}]
         tenants.append({"id": t, "spec": spec, "points": points, "ops": ops, "twin_of": None})
     # malformed set-ups as short-lived tenants
     bad = []
@@ -529,10 +534,18 @@ class Tenant:
                 zoo.SHARE["ctx"] = core.digest({a: b for a, b in self.t["spec"].items() if a != "mode"})
             self.model = zoo.build(self.t["spec"])
             self.user0 = zoo.user_array_digests(self.model.user_dicts)
+            self.dead = False
+            self.converged = False
+            return
+        if k == "rebuild":
+            obs_out.append(("rebuild", {}))
+            stats["rebuild"] = stats.get("rebuild", 0) + 1
+            return self.step({"op": "build"}, obs_out, stats)
+        if self.model is None or self.dead:
+            return
+        if k == "final_setup":
             with _quiet():
                 self.model.prob.final_setup()
-            return
-        if self.model is None or self.dead:
             return
         prob = self.model.prob
         import openmdao.api as om
@@ -736,6 +749,19 @@ def execute(case, stop_at_first=True, collect=True, known=None):
                 violation("isolation", "%s:%s" % (b[2], _where_name(b[3])), b[4], b[5], {"tenant": t["id"], "zoo": t["spec"]["zoo"], "share": case.get("share"), "twin_of": t.get("twin_of")})
             else:
                 violation("isolation", "structure:%s" % (b[0],), extra={"tenant": t["id"], "detail": [str(x) for x in b]})
+        # a tenant that is dropped, collected and built again from new objects must reproduce its first results
+        lst = prog[t["id"]]
+        marks = [i for i, (kind, _d) in enumerate(lst) if kind == "rebuild"]
+        if marks:
+            first = next((d for kind, d in lst[: marks[0]] if kind == "run"), None)
+            again = next((d for kind, d in lst[marks[0]:] if kind == "run"), None)
+            if first is not None and again is not None:
+                res["probes"]["rebuilt_tenant_compared"] = res["probes"].get("rebuilt_tenant_compared", 0) + 1
+                for name, vb in first.items():
+                    ok, err, scale = obs.cmp_arrays(again.get(name, np.array([np.nan])), vb, RT_ISOLATED, 0.0)
+                    if not ok:
+                        violation("not_repeatable_after_rebuild", "run:%s" % _where_name(name), err, scale, {"tenant": t["id"], "zoo": t["spec"]["zoo"]})
+                        break
         for kind, d in prog[t["id"]]:
             if kind == "run":
                 nf = obs.all_finite(d)
